@@ -28,7 +28,7 @@ ASSUMPTIONS = [
     "Q-factors are outside canonicalize's documented domain (TypeError) and are not generated here",
 ]
 BUDGET = {
-    "quick": dict(examples=500, shards=16, seconds=200),
+    "quick": dict(examples=1200, shards=16, seconds=200),
     "thorough": dict(examples=12000, shards=16, seconds=2400),
 }
 ESSENTIAL_LABELS = {t: ["has:sum", "has:frac", "has:prod", "sum-collapsed", "declared-equal", "declared-unequal"] for t in ("quick", "thorough")}
